@@ -55,6 +55,26 @@ func IsNilConst(v ssa.Value) bool {
 func Callee(c ssa.CallInstruction) string {
 	cc := c.Common()
 	if cc.IsInvoke() {
+		// a collaborator narrowed to a small local interface (`type userSaver
+		// interface{ Save(...) }`) and converted from the interface the rules know:
+		// the method is that interface's method
+		v := cc.Value
+		for d := 0; d < 4; d++ {
+			ci, ok := v.(*ssa.ChangeInterface)
+			if !ok {
+				break
+			}
+			v = ci.X
+			if _, isI := v.Type().Underlying().(*types.Interface); isI {
+				if sel := types.NewMethodSet(v.Type()).Lookup(cc.Method.Pkg(), cc.Method.Name()); sel != nil {
+					if f, ok := sel.Obj().(*types.Func); ok {
+						if _, named := v.Type().(*types.Named); named {
+							return Short("(" + v.Type().String() + ")." + f.Name())
+						}
+					}
+				}
+			}
+		}
 		return Short(cc.Method.FullName())
 	}
 	return valueFuncName(cc.Value)
@@ -73,7 +93,7 @@ func valueFuncName(v ssa.Value) string {
 	case *ssa.UnOp:
 		if g, ok := v.X.(*ssa.Global); ok {
 			// an injectable clock: a package-level `var now = time.Now` is the clock
-			if f := GlobalInitFunc(g); f != nil && f.Pkg != nil && f.Pkg.Pkg.Path() == "time" && f.Name() == "Now" && g.Name() != "nowTime" {
+			if f := GlobalInitFunc(g); f != nil && f.Pkg != nil && f.Pkg.Pkg.Path() == "time" && f.Name() == "Now" {
 				return "time.Now"
 			}
 			return "var:" + Short(g.Pkg.Pkg.Path()) + "." + g.Name()
